@@ -47,6 +47,11 @@ CHECKS = {
             "Histories of identical sessions are executed from every enumerated initial program under all 16 approved sets and the second transition is required to be a self-loop on the file state (plus: nothing left to create/fix/trim after full approval).",
             "Initial programs of mc/checks/c08.py (tricky reprs, hand layouts, slack, wrong, empty); an internally noted update with an empty diff is allowed (DESIGN.md C08 scope).",
             "DESIGN.md 5/C08"),
+    "C04": ("model_checking",
+            "exhaustive exploration of the configuration space (flag sources x subsets x modes x all review answer vectors x CI/xdist/tty/xfail environments), every point a real pytest session; conformance with an independent flag-resolution model and differential comparison with CLI-only reference sessions",
+            "Every configuration of the stated product is executed as a real session; the model predicts usage errors and the approved set, the resulting directory must equal the CLI-only session for that set, carry exactly its category markers and be byte-identical when nothing is approved.",
+            "Model rules DESIGN.md A.2; tty emulated with FORCE_COLOR; quick: one program with all four categories plus externals, thorough: four programs.",
+            "DESIGN.md 5/C04, A.2"),
 }
 
 NOT_APPLICABLE = {
